@@ -18,6 +18,10 @@ encoding (`-` = empty string); a list of strings is printed `[h,h,...]`.
   compld <hexd> <hexrd> <hex> <a> <e|N>     complement_int_list(text, a, e, d, rd)
                                (d, rd: one-character strings, else `bad-op`)
   table                        the generated safe-character ranges, printed back
+  -- acceptance of the text the IMPLEMENTATION produced (round 3; the correspondence proper):
+  shv  <hextext> <hex>*        shAccepts(text, args)   -> `T<text> S<shSplit text> ok|REJECTED`
+  cmdv <hextext> <hex>*        crtAccepts(text, args)  -> `T<text> D<..> L<..> M<..> ok|REJECTED`
+  esav <0|1> <hexstyle> <hextext> <hex>*   the reader chosen by styleOf(style, win32) applied as above | `ValueError`
 -/
 namespace C14.Driver
 open BV C14
@@ -62,8 +66,34 @@ def esa (w : Bool) (st : String) (toks : List String) : String :=
 def crtAll (t : Str) : String :=
   s!"D{showList (crtSplit .documented t)} L{showList (crtSplit .legacy t)} M{showList (crtSplit .modern t)}"
 
+def verdict (b : Bool) : String := if b then "ok" else "REJECTED"
+
+def shv (t : Str) (args : List Str) : String :=
+  s!"T{hexOf t} S{showOptList (shSplit t)} {verdict (shAccepts t args)}"
+
+def cmdv (t : Str) (args : List Str) : String :=
+  s!"T{hexOf t} {crtAll t} {verdict (crtAccepts t args)}"
+
 def handle (line : String) : String :=
   match words line with
+  | "shv" :: ht :: toks =>
+    match hexToString? ht, args? toks with
+    | some t, some args => shv (toStr t) args
+    | _, _ => "bad-op"
+  | "cmdv" :: ht :: toks =>
+    match hexToString? ht, args? toks with
+    | some t, some args => cmdv (toStr t) args
+    | _, _ => "bad-op"
+  | "esav" :: w :: st :: ht :: toks =>
+    match hexToString? st, hexToString? ht, args? toks with
+    | some st, some t, some args =>
+      if w = "0" ∨ w = "1" then
+        match styleOf (toStr st) (w = "1") with
+        | some .sh => shv (toStr t) args
+        | some .cmd => cmdv (toStr t) args
+        | none => "ValueError"
+      else "bad-op"
+    | _, _, _ => "bad-op"
   | "sh" :: toks =>
     match args? toks with
     | some args => let t := args2sh args; s!"T{hexOf t} S{showOptList (shSplit t)}"
